@@ -19,6 +19,7 @@
 EXTENDS Integers, Sequences, FiniteSets, TLC, Json
 
 CONSTANTS MaxList,
+          OnlyMultiGroup, \* TRUE: only the lists in which at least two different base names occur more than once
           SkipIrregular   \* TRUE: entries that are neither regular files nor directories (after following
                           \* a symlink to a regular file) are left out; FALSE: pinned commit (lstat entries listed)
 
@@ -85,7 +86,9 @@ PerPathOnce == \A i \in 1..Len(list) : \A a, b \in ItemsOf(i) : (a.rest = b.rest
 \* every file's size is what can be read through its path (symlink entries carry the target's size)
 SizesReadable == \A it \in AllItems : it.size >= 0
 
+DupBases(l) == {b \in {l[i][Len(l[i])] : i \in 1..Len(l)} : Cardinality({i \in 1..Len(l) : l[i][Len(l[i])] = b}) > 1}
 Init == /\ list \in UNION {[1..n -> Candidates] : n \in 1..MaxList}
+        /\ (OnlyMultiGroup => Cardinality(DupBases(list)) >= 2)
         /\ phase = "new"
 Next == phase = "new" /\ phase' = "done" /\ UNCHANGED list
 
